@@ -421,7 +421,9 @@ class MinFlowDecompCycles(walkmodel.AbstractWalkModelDiGraph):
         # Checking if we have been given some lowerbound to start with
         self._lowerbound_k = self.optimization_options.get("lowerbound_k", 1)
 
-        self._lowerbound_k = max(self._lowerbound_k, stDiGraph.get_width(edges_to_ignore=self.edges_to_ignore))
+        # The edges from the global source / to the global sink are not part of the decomposition problem
+        # (as in the k-models, they are ignored): e.g. an isolated node, or a source whose out-going edges are all ignored, needs no walk
+        self._lowerbound_k = max(self._lowerbound_k, stDiGraph.get_width(edges_to_ignore=list(self.edges_to_ignore) + list(stDiGraph.source_sink_edges)))
 
         if self.optimization_options.get("use_min_gen_set_lowerbound", MinFlowDecompCycles.use_min_gen_set_lowerbound):  
             mingenset_lowerbound = self._get_lowerbound_with_min_gen_set()
